@@ -23,6 +23,7 @@ EXPLANATION = (
     "timestamps with integer microsecond arithmetic from a UTC-aware epoch. NOT decided: fastavro's validation and encoding, "
     "float precision."
     " Rules added after the sixth blind round: (R19.5) RecordDescriptor defines neither __len__ nor __bool__ (the writer tests the truth of self.desc); (R19.6 = R17.4 of C17, SplitWriter.write) the full part is finalised before the next one is opened."
+    " Rules added after the seventh blind round: (R19.7 = R5.9 of C05) generated code never truth-tests a generic field value; the reader's schema refusal (R19.1) is decided by expanding the tested expression and self.schema to the same value and by dominance over the schema's first use."
 )
 RULE_SUMMARY = "instances: refusal sites, type-table rows, embedding sites, value-flow into writer.write"
 
